@@ -36,11 +36,15 @@ type c20Case struct {
 	Gate    string    `json:"gate"`            // "", "pre", "post", "start": deliveries park on a gate
 	Early   bool      `json:"early,omitempty"` // deliveries refuse without reading the message
 	TLS     bool      `json:"tls,omitempty"`   // STARTTLS is available ("starttls-begin": STARTTLS sent, 220 received, no handshake yet)
-	Steps   []c20Step `json:"steps"`
+	// PanicOnAbort: deliveries panic when their reader fails (a transfer
+	// abandoned by RSET, QUIT, a disconnect, Close): the panic is the
+	// backend's, ending the connection in good order is the server's
+	PanicOnAbort bool      `json:"panic_on_abort,omitempty"`
+	Steps        []c20Step `json:"steps"`
 }
 
 func c20Run(c c20Case) Verdict {
-	plan := harness.DataPlan{Read: harness.ReadPlan{Limit: -1}, Honest: true, GatePre: c.Gate == "pre", GatePost: c.Gate == "post"}
+	plan := harness.DataPlan{Read: harness.ReadPlan{Limit: -1}, Honest: true, GatePre: c.Gate == "pre", GatePost: c.Gate == "post", PanicOnReadErr: c.PanicOnAbort}
 	if c.Early {
 		plan.Read.Limit = 0
 		plan.Result = harness.Decision{Kind: "smtp", Code: 550, Enh: [3]int{5, 7, 1}, Msg: "refused by policy"}
@@ -308,6 +312,7 @@ func c20Gen(t *rapid.T) c20Case {
 		Gate: rapid.SampledFrom([]string{"", "pre", "post", "post", "start", "newsession", "mail", "rcpt"}).Draw(t, "gate")}
 	c.Early = rapid.IntRange(0, 3).Draw(t, "early") == 0
 	c.TLS = rapid.IntRange(0, 3).Draw(t, "tls") == 0
+	c.PanicOnAbort = !c.Early && rapid.IntRange(0, 3).Draw(t, "panic_on_abort") == 0
 	// per-connection programs
 	progs := make([][]string, c.NConns)
 	for i := range progs {
